@@ -267,15 +267,16 @@ Definition excerpt (path src : str) (row cs ce : N) : str :=
   | None => hdr ++ missing_source ++ [10]
   end.
 
-(* impl Display for ParseErrorDisplayPretty (parse_error.rs:136-171); panic site 3 = the slice *)
+(* impl Display for ParseErrorDisplayPretty (parse_error.rs:136-169); panic site 3 = the slice.
+   Since the fix "pretty display of a missing-syntax error cites its location" there is no special
+   case for an empty byte range: the source is sliced and the excerpt printed for EVERY node (a
+   zero-width node gets an empty column range, i.e. no carets). *)
 Definition display_pretty (path src : str) (k : pkind) (p : npos) : outcome unit str :=
   let head := kind_text k ++ [10] in
-  if range_is_empty p then Ok (head ++ [10])
-  else
-    obind (slice_bytes 3 src (np_start p) (np_end p)) (fun txt =>
-    let start_column := np_col p in
-    let end_column := np_col p + N.of_nat (length (until_nl txt)) in
-    Ok (head ++ excerpt path src (np_row p) start_column end_column)).
+  obind (slice_bytes 3 src (np_start p) (np_end p)) (fun txt =>
+  let start_column := np_col p in
+  let end_column := np_col p + N.of_nat (length (until_nl txt)) in
+  Ok (head ++ excerpt path src (np_row p) start_column end_column)).
 
 (* well-formedness of the position data of a node w.r.t. the source it was parsed from: the byte
    range is ordered and both ends are character boundaries inside the source *)
@@ -327,7 +328,9 @@ Definition outcome_matches (m : outcome unit str) (o : option str) : bool :=
 
 (* verdict codes: 0 agree; 99 oracle assumption violated (a visible flagged node but !has_error()); 1 all; 2 first; 3 into_all; 4 into_first;
    5 plain display text/panic differs; 6 pretty display differs; 7 citation flags differ from the
-   model's text; 8 model did not return Ok; 9 observation lists malformed; 10 moved display differs *)
+   model's text; 8 model did not return Ok; 9 observation lists malformed; 10 moved display differs;
+   11 a display of a reported error does not cite "path:row+1:col+1:" (property-level failure, judged on
+   the flags computed by the harness from the real text, independently of the model) *)
 Fixpoint disp_verdict (path src : str) (pos : list (N * npos)) (l : list perr) (ds : list disp_obs) : N :=
   match l, ds with
   | [], [] => 0
@@ -339,6 +342,7 @@ Fixpoint disp_verdict (path src : str) (pos : list (N * npos)) (l : list perr) (
           let mq := display_pretty path src k p in
           if negb (outcome_matches mp (d_plain d)) then 5
           else if negb (outcome_matches mq (d_pretty d)) then 6
+          else if negb (d_cites_plain d && d_cites_pretty d) then 11
           else
             let c := cite path (np_row p) (np_col p) in
             let cp := match mp with Ok s => is_prefix c s | _ => false end in
